@@ -123,24 +123,23 @@ def project(ldr) -> dict:
         img = _which_image(ldr.image, bin_)
         return dict(kind="single", tab=project_mol(ldr.molecules, bin_), imgs=[img], img=img, bin=bin_)
     tab = project_mol(ldr.molecules, bin_)
-    if bin_ != 1:
-        imgs = sorted(int(k) for k in ldr.images.keys())
-        return dict(kind="batch", tab=tab, imgs=imgs, img=-1, bin=bin_)
     # abstraction function: an image id is local to a batch; the abstract state names a tomogram by its content (code)
-    m = idmap(ldr)
+    m = idmap(ldr, bin_)
     for r in tab["rows"]:
         if "img" in r["f"]:
             r["f"]["img"] = m.get(r["f"]["img"], -1)
     return dict(kind="batch", tab=tab, imgs=sorted(m.values()), img=-1, bin=bin_)
 
 
-def idmap(ldr) -> dict:
+def idmap(ldr, bin_: int | None = None) -> dict:
     """image id of a batch loader -> code of the tomogram registered under it"""
-    return {int(k): _which_image(img, 1) for k, img in ldr.images.items()}
+    if bin_ is None:
+        bin_ = int(round(ldr.scale))
+    return {int(k): _which_image(img, bin_) for k, img in ldr.images.items()}
 
 
 def id_of_code(ldr, code: int) -> int:
-    if int(round(ldr.scale)) != 1 or not hasattr(ldr, "images"):
+    if not hasattr(ldr, "images"):
         return code
     for k, c in idmap(ldr).items():
         if c == code:
@@ -176,9 +175,10 @@ def build_x(form: str, codes, T):
 
 
 def _which_image(image, bin_: int) -> int:
-    if bin_ != 1:
-        return 0 if image is not None else -1
     v = float(np.asarray(image[0, 0, 0]))
+    if bin_ != 1:
+        # a binned voxel is the sum of bin^3 voxels code * 100000 + (index + 1), and the indices stay far below 100000
+        return int(round(v) // (bin_**3 * 100000))
     return int((round(v) - 1) // 100000)
 
 
@@ -264,6 +264,20 @@ def observe(ldr, via: str):
     elif via == "align":
         res = ldr.align(templ, max_shifts=1.0, alignment_model=Probe)
         vals = res.molecules.features["score"].to_list()
+    elif via in ("align_moved", "align_multi_moved"):
+        # an alignment that MOVES every molecule (one pixel along z): the loader it was asked of stays where it is
+        class Moving(Probe):
+            def _optimize(self, subvolume, template, max_shifts, quaternion, pos, backend):
+                return np.array([1.0, 0.0, 0.0], np.float32), np.array([0, 0, 0, 1], np.float32), self._centre(subvolume)
+
+        if via == "align_moved":
+            out = ldr.align(templ, max_shifts=1.0, alignment_model=Moving)
+        else:
+            out = ldr.align_multi_templates([templ, templ * 2], max_shifts=1.0, alignment_model=Moving)
+        vals = out.molecules.features["score"].to_list()
+        moved = np.asarray(out.molecules.pos, dtype=np.float64) - np.asarray(ldr.molecules.pos, dtype=np.float64)
+        if len(vals) and not np.allclose(np.linalg.norm(moved, axis=1), float(ldr.scale), atol=1e-3):
+            vals = [-5.0e6] * len(vals)          # the RESULT was not moved by one pixel per molecule (or the source moved with it)
     elif via == "score":
         vals = list(ldr.score([templ], alignment_model=Probe)[0])
     elif via == "apply":
@@ -391,7 +405,7 @@ def execute(op: dict, ldr, T, seed: int = 0):
                     return float(np.asarray(x)[1, 1, 1]) + 5.0e6
 
                 applied = grp.apply([centre, centre_far])
-            ids = idmap(ldr) if op["col"] == "img" and int(round(ldr.scale)) == 1 else {}
+            ids = idmap(ldr) if op["col"] == "img" else {}
             for store in (groups, groups2):
                 for key, sub in grp:
                     k = ids.get(int(key), int(key)) if op["col"] == "img" else tables._val_to_spec(op["col"], key)
